@@ -155,7 +155,9 @@ func (p *Pool) Start() {
 
 // Stop worker. Wait all task done.
 func (p *Pool) Stop() {
-	if atomic.CompareAndSwapUint32(&p.state, 1, 2) || atomic.CompareAndSwapUint32(&p.state, 0, 2) {
+	// state only moves forward (0 -> 1 -> 2); the third attempt covers a Start that ran between the first two.
+	if atomic.CompareAndSwapUint32(&p.state, 1, 2) || atomic.CompareAndSwapUint32(&p.state, 0, 2) ||
+		atomic.CompareAndSwapUint32(&p.state, 1, 2) {
 		// cancel context
 		p.cancel()
 
